@@ -184,6 +184,7 @@ type Sim struct {
 	readFileErrIn   int
 	TimeSkipped     int64
 	simPaths        []string
+	simDirs         []string
 	userLog         []UserRec
 	InotifyQueueMax int
 	handlerBusyNs   int64
